@@ -1002,7 +1002,6 @@ func (t *Tree) Compile(file string, args []string, out io.Writer) (err error) {
 			t.warn(fmt.Errorf("illegal node type: %v", n.GetType()))
 		}
 	}
-	dryCompile := true
 
 	compile = func(n *node, ko uint) (labelLast bool) {
 		switch n.GetType() {
@@ -1036,7 +1035,7 @@ func (t *Tree) Compile(file string, args []string, out io.Writer) (err error) {
 				_print("}")
 			}
 		case TypeRange:
-			if n.ParentDetect() {
+			if n.ParentDetect() && !n.ParentMultipleKey() {
 				_print("\nposition++")
 				break
 			}
@@ -1141,12 +1140,8 @@ func (t *Tree) Compile(file string, args []string, out io.Writer) (err error) {
 					_print(" '%s'", escape(character.String()))
 				}
 				_print(":")
-				if !dryCompile {
-					sequence.SetParentDetect(true)
-					if class.Len() > 1 {
-						sequence.SetParentMultipleKey(true)
-					}
-				}
+				sequence.SetParentDetect(true)
+				sequence.SetParentMultipleKey(class.Len() > 1)
 				if compile(sequence, done) {
 					_print("\nbreak")
 				}
@@ -1171,8 +1166,8 @@ func (t *Tree) Compile(file string, args []string, out io.Writer) (err error) {
 			printBegin()
 			printSave(ok)
 			element := n.Front()
-			element.SetParentDetect(n.ParentDetect())
-			element.SetParentMultipleKey(n.ParentMultipleKey())
+			element.SetParentDetect(false)
+			element.SetParentMultipleKey(false)
 			compile(element, ko)
 			printRestore(ok)
 			printEnd()
@@ -1182,8 +1177,8 @@ func (t *Tree) Compile(file string, args []string, out io.Writer) (err error) {
 			printBegin()
 			printSave(ok)
 			element := n.Front()
-			element.SetParentDetect(n.ParentDetect())
-			element.SetParentMultipleKey(n.ParentMultipleKey())
+			element.SetParentDetect(false)
+			element.SetParentMultipleKey(false)
 			compile(element, ok)
 			printJump(ko)
 			printLabel(ok)
@@ -1197,8 +1192,8 @@ func (t *Tree) Compile(file string, args []string, out io.Writer) (err error) {
 			printBegin()
 			printSave(qko)
 			element := n.Front()
-			element.SetParentDetect(n.ParentDetect())
-			element.SetParentMultipleKey(n.ParentMultipleKey())
+			element.SetParentDetect(false)
+			element.SetParentMultipleKey(false)
 			compile(element, qko)
 			printJump(qok)
 			printLabel(qko)
@@ -1214,8 +1209,8 @@ func (t *Tree) Compile(file string, args []string, out io.Writer) (err error) {
 			printBegin()
 			printSave(out)
 			element := n.Front()
-			element.SetParentDetect(n.ParentDetect())
-			element.SetParentMultipleKey(n.ParentMultipleKey())
+			element.SetParentDetect(false)
+			element.SetParentMultipleKey(false)
 			compile(element, out)
 			printJump(again)
 			printLabel(out)
@@ -1269,7 +1264,6 @@ func (t *Tree) Compile(file string, args []string, out io.Writer) (err error) {
 	}
 	_print = printTemp
 	label = 0
-	dryCompile = false
 
 	/* now for the real compile pass */
 	t.PegRuleType = "uint8"
